@@ -275,6 +275,9 @@ class Roots:
         self._store_index: dict[tuple[str, str], list] | None = None
         self._ext_store_index: dict[str, list] | None = None
         self._writes: dict[str, list[Write]] = {}
+        # writes that are not spelled as statements: `@cached_property` stores its result in the instance on first access
+        # (registered by rules/c15.py for the cached properties that are not provably unobservable)
+        self.extra_writes: dict[str, list[Write]] = {}
 
     # ------------------------------------------------------------------ small facts
     @staticmethod
@@ -1047,7 +1050,17 @@ class Roots:
                 # object.__setattr__(obj, name, value) writes to its first argument, x.__setitem__(k, v) / super().__setattr__(..) to the receiver
                 tgt = n.args[0] if isinstance(n.func.value, ast.Name) and n.func.value.id == "object" else n.func.value
                 out.append(Write(f, n, tgt, "setattr", n.func.attr, "set", path_of(tgt, "?")))
+        out += self.extra_writes.get(f.fq, [])
         return out
+
+    def register_cached_property(self, f: FuncInfo) -> None:
+        """The first read of the cached property `f` stores the computed value in the instance: a write to `self`."""
+        sn = self.self_name(f)
+        if sn is None or f.fq in self.extra_writes:
+            return
+        recv = ast.Name(id=sn, ctx=ast.Load())
+        self.extra_writes[f.fq] = [Write(f, f.node, recv, "attr-store", f.name, "set", f.name)]
+        self._writes.pop(f.fq, None)
 
     def targets(self, w: Write) -> frozenset:
         """(root, level) tags of the object a write modifies."""
@@ -1137,7 +1150,7 @@ class EffectSummaries:
                     if m[0] == "cls" and m[1] in self.repo.classes:
                         ci = self.repo.classes[m[1]]
                         meth = self.repo.lookup_method(ci, n.attr)
-                        if meth is not None and meth.is_property:
+                        if meth is not None and (meth.is_property or "cached_property" in meth.decorators):
                             for impl in self.repo.implementations(ci, n.attr):
                                 if impl in self.inregion:
                                     out.append((impl, {R.self_name(impl) or "self": R.value(f, n.value)}))
